@@ -109,8 +109,8 @@ def cmd_run(name, tier, pids):
             print(f"== {name} vs {pid} {tier}: exit {rc} ({'DETECTED' if rc == 1 else 'missed' if rc == 0 else 'inconclusive'}) {results[pid]['wall']}s")
             for l in lines[:6]:
                 print("   ", l[:300])
-            if rc == 2:
-                print(out[-1500:])
+            if rc == 2 or os.environ.get("SEED_VERBOSE"):
+                print(out[-4000:])
     finally:
         drop(wt)
     meta.setdefault("check_results", {}).update({f"{p}:{tier}": r for p, r in results.items()})
